@@ -12,6 +12,7 @@ LOGIN_TYPES = ("login", "login-ipr", "combined")
 PROTOCOLS = ("login", "login-ipr", "dronecheck", "combined")
 ISSPACE = " \t\n\v\f\r"
 LOCAL = "127.0.0.1 6667"
+MAX_SERVICES = 32     # one bit per service-table slot in the per-client uint32_t masks (modules/iauth_xquery.c)
 UNLINKED_TEXT = "The login server is currently disconnected.  Please excuse the inconvenience."
 
 
@@ -171,6 +172,11 @@ class Conf:
         self.services = {}
         for name, proto in d.get("services", []):
             self.services[name] = proto.lower() if proto.lower() in PROTOCOLS else None
+        # a freshly started daemon fills its table in configuration order (names compared case-insensitively);
+        # entries beyond the table's capacity are refused and count as not configured
+        order = sorted(self.services, key=lambda n: n.lower().encode("latin-1"))
+        for n in order[MAX_SERVICES:]:
+            self.services[n] = None
         self.rules = []
         for r in d.get("rules", []):
             if r[1] is not None:
